@@ -11,7 +11,7 @@ from ..trees import dsl
 
 INFO = {
     "bounds": {
-        "quick": "trees T03,T04,T06,T11,E_range_bound,E_range_cond,E_hexfloat,E_set_val_int: every user state: ints symbolic 0..2000 plus malformed/negative/huge candidates, hex and float from the full candidate lists (0X.., leading zeros, 1e3, 5 for a float, nan, inf, negative, empty), arriving through set_value and through sdkconfig lines",
+        "quick": "trees T03,T04,T06,T11,E_range_bound,E_range_cond,E_hexfloat,E_set_val_int: every user state: ints symbolic 0..2000 plus malformed/negative/huge candidates, hex and float from the full candidate lists (0X.., leading zeros, 1e3, 5 for a float, nan, inf, negative, empty), arriving through set_value and through sdkconfig lines; plus one further symbolic operation on each option with all caches filled",
         "thorough": "same trees + T09,T14,T15 and kconfserver fixture, ints to 10^6",
     },
     "outside": ["configurations in which a range's symbol-valued bounds cross (low > high): no value can satisfy it", "hex/float spellings outside the candidate lists", "the config-server door is exercised in C15's harness", "well-formedness is 'convertible by int(s, base) / float(s)' (the implementation's documented validity notion), not a stricter lexical form"],
@@ -69,6 +69,13 @@ def wellformed(ctx, *args):
                 lines.append("CONFIG_%s=%s" % (sl.name, v))
         fs.put("/m/in", "\n".join(lines) + "\n")
         k.load_config("/m/in")
+    if "target" in ctx:
+        # a further operation with live caches: the emitted values must still be well-formed and in range
+        from .c03 import _apply_op
+
+        ST.snapshot(k)
+        n = ctx["nstate"]
+        _apply_op(k, slots[ctx["target"]], Dom.from_json(ctx["odom"]), args[n], args[n + 1])
     rngs = _ranges_from_dsl(tid)
     kinds = {sl.name: sl.kind for sl in slots if sl.kind != "pick"}
     num = {}
@@ -146,4 +153,14 @@ def jobs(tier, seed, excluded=()):
     out = []
     for door in ("api", "file"):
         out += state_jobs("C06", "vk.props.c06", "wellformed", trees, dom, budget, nparts, tmo, rng, {"door": door}, tag=door)
+    # histories: one more operation on every option, with all caches filled before it
+    from .common import op_value_bounds
+
+    odom = Dom(int_max=dom.int_max, str_mode="cand", str_cands=["p", ""], int_cands=["-3", "abc", "18446744073709551616"], hex_cands=["0x1f", "1f", "zz", "0xfffff", "0x2"], float_cands=["5", "0.25", "nan", "9.6", "1e3"])
+    for tid in trees:
+        slots = ST.layout(tid)
+        for t, sl in enumerate(slots):
+            if sl.kind == "pick":
+                continue
+            out += state_jobs("C06", "vk.props.c06", "wellformed", [tid], dom, budget // 4, 1, tmo, rng, {"door": "api", "target": t, "odom": odom.to_json()}, tag="op-" + sl.name, extra_params=[("ok", "int"), ("ov", "int")], extra_pre="0 <= ok <= 3 and " + op_value_bounds(sl, odom), extra_samples=lambda r: [r.randint(0, 3), 0], must_free=lambda a, b, t=t: [b[t].name])
     return out
